@@ -149,9 +149,14 @@ func hiddenCarriers(g *PageGen) []string {
 func runC04(ctx *Ctx) {
 	pc := newPipeCorr()
 	defer pc.run(ctx)
+	on := newCorr("outputnodes")
+	defer on.run(ctx)
 	ctx.Rep.Rule = "each hiding technique (script, style, head, comment, hidden attribute, display:none, visibility:hidden/collapse, aria-hidden, form controls, noscript, svg, object, unrecognised iframe) in each carrier (top level, paragraph, list item, data-table cell, figure, figcaption, blockquote, bare div) between long retained paragraphs; distinct by structure; non-trivial = the page contains hidden words and retains visible ones"
 	contentRun{id: "C04", n: [2]int{150, 6000}, url: pageURL,
-		corr:    func(ctx *Ctx, x *distilled, replay interface{}) { pc.add(ctx, x.D, x.Root, true, replay) },
+		corr: func(ctx *Ctx, x *distilled, replay interface{}) {
+			pc.add(ctx, x.D, x.Root, true, replay)
+			addOutputNodesCase(on, x.Src, replay)
+		},
 		weights: []W{{"para", 30}, {"hidden", 15}, {"script", 12}, {"form", 10}, {"list", 6}, {"datatable", 8}, {"figure", 8}, {"embed", 4}, {"quote", 4}, {"divwrap", 6}, {"links", 3}},
 		extra: func(ctx *Ctx, i int, r *Rng) []string {
 			g := newPageGen(r)
@@ -172,6 +177,8 @@ func runC04(ctx *Ctx) {
 func runC05(ctx *Ctx) {
 	corrStrip := newCorr("strip")
 	defer corrStrip.run(ctx)
+	on := newCorr("outputnodes")
+	defer on.run(ctx)
 	ctx.Rep.Rule = "pages whose every element may carry on*, id, class, style, data-* and unknown attributes, over all retained kinds (paragraphs, lists, images, figures+captions, videos, data tables, embeds) and with script/style children inside tables, captions and tweets; distinct by structure; non-trivial = at least one retained element carried a forbidden attribute in the source"
 	contentRun{id: "C05", n: [2]int{300, 12000}, url: pageURL,
 		weights: []W{{"para", 30}, {"heading", 4}, {"list", 8}, {"quote", 4}, {"datatable", 8}, {"figure", 8}, {"img", 8}, {"video", 6}, {"embed", 8}, {"script", 4}, {"divwrap", 6}, {"pre", 2}},
@@ -197,6 +204,7 @@ func runC05(ctx *Ctx) {
 				parts = append(parts, e.Data+":"+strings.Join(as, " "))
 			}
 			corrStrip.add(sb.String(), strings.Join(parts, "|"), replay)
+			addOutputNodesCase(on, x.Src, replay)
 		},
 		extra: func(ctx *Ctx, i int, r *Rng) []string {
 			g := newPageGen(r)
@@ -221,9 +229,12 @@ func runC05(ctx *Ctx) {
 func runC06(ctx *Ctx) {
 	ctx.Rep.Rule = "pages in which every link/media URL uses a relative-reference form (path-relative, root-relative, scheme-relative, query-only, dot segments, fragment, absolute) on every URL-bearing attribute of every kind (a, img, picture/source, srcset, video src/poster, track, lazy attributes), under several page URLs; distinct by structure; non-trivial = at least one retained URL whose source value was relative"
 	urls := []string{"http://example.com/dir/page.html", "https://sub.example.org/a/b/c?x=1", "http://example.com/"}
+	ab := newCorr("absurl")
+	defer ab.run(ctx)
 	for k, us := range urls {
 		u, _ := nurl.Parse(us)
 		cr := contentRun{id: "C06", n: [2]int{120, 4000}, url: u,
+			corr: func(ctx *Ctx, x *distilled, replay interface{}) { addAbsURLCase(ab, x.Src, u, replay) },
 			weights: []W{{"para", 35}, {"list", 6}, {"datatable", 8}, {"figure", 10}, {"img", 10}, {"video", 8}, {"quote", 4}, {"divwrap", 5}, {"links", 4}},
 			setup:   func(g *PageGen) { g.RelURLs = true },
 			oracle: func(ctx *Ctx, x *distilled, replay interface{}) bool {
